@@ -52,12 +52,12 @@ func init() {
 		}
 		return []*hist.Scenario{
 			{
-				ID: "C12/topics", Prop: "C12", Depth: d(tier, 4, 6),
+				ID: "C12/topics", Prop: "C12", Depth: d(tier, 4, 5),
 				Cfg:      model.Cfg{Topics: topics, LazyTopics: topics},
 				Alphabet: ta,
 			},
 			{
-				ID: "C12/subscriptions", Prop: "C12", Depth: d(tier, 4, 6),
+				ID: "C12/subscriptions", Prop: "C12", Depth: d(tier, 5, 6),
 				Cfg: model.Cfg{Topics: []string{"p:t", "P:t", "p:u"}, Subs: []model.SubCfg{
 					{Name: "p:s", Topic: "p:t"},
 					{Name: "P:s", Topic: "P:t"},
@@ -69,7 +69,7 @@ func init() {
 				Alphabet: subsAlpha,
 			},
 			{
-				ID: "C12/snapshots", Prop: "C12", Depth: d(tier, 4, 6),
+				ID: "C12/snapshots", Prop: "C12", Depth: d(tier, 5, 6),
 				Cfg: model.Cfg{Topics: []string{"p:t", "P:t"}, Subs: []model.SubCfg{
 					{Name: "p:s", Topic: "p:t"},
 					{Name: "P:s", Topic: "P:t"},
